@@ -215,3 +215,18 @@ func argClasses(a []byte) []string {
 	}
 	return cls
 }
+
+// genAbandoned draws 0-3 incomplete requests left behind by clients that disconnect mid-request.
+func genAbandoned(t *rapid.T) []Bin {
+	if rapid.IntRange(0, 3).Draw(t, "abandon") != 0 {
+		return nil
+	}
+	n := rapid.IntRange(1, 3).Draw(t, "nabandoned")
+	var out []Bin
+	for i := 0; i < n; i++ {
+		full := refmodel.EncodeCmdS("set", "abandoned-"+rapid.StringMatching(`[a-z]{1,8}`).Draw(t, "abkey"), rapid.StringMatching(`[A-Z]{1,40}`).Draw(t, "abval"))
+		cut := rapid.IntRange(1, len(full)-1).Draw(t, "abcut")
+		out = append(out, Bin(full[:cut]))
+	}
+	return out
+}
